@@ -117,6 +117,55 @@ SWALLOW = ('std::result::Result::<T, E>::ok', 'std::result::Result::<T, E>::is_o
            'std::result::Result::<T, E>::err', 'std::mem::drop')
 
 
+CONVERT = ('std::result::Result::<T, E>::ok', 'std::result::Result::<T, E>::is_ok', 'std::result::Result::<T, E>::is_err',
+           'std::result::Result::<T, E>::err')
+
+
+def value_fate(fn, loc, depth=0):
+    """fates of the value held in local `loc` (same vocabulary as result_fate)"""
+    fates = set()
+    seen = set()
+    work = [loc]
+    while work:
+        l = work.pop()
+        if l in seen:
+            continue
+        seen.add(l)
+        if l == 0:
+            fates.add('returned')
+            continue
+        for ub, kind in fn.uses_of(l):
+            blk = fn.blocks[ub]
+            if kind == 'drop':
+                continue
+            if kind == 'switch':
+                fates.add('switch')
+            if kind == 'arg':
+                fates.add(blk['t']['callee'].get('path') or 'indirect')
+            if kind == 'rhs':
+                for s in blk['s']:
+                    if s['k'] != 'assign':
+                        continue
+                    rv = s['rv']
+                    srcs = []
+                    if rv['r'] in ('use', 'cast', 'un'):
+                        srcs = [rv.get('o') or rv.get('a')]
+                    elif rv['r'] == 'agg':
+                        srcs = rv['o']
+                    elif rv['r'] == 'bin':
+                        srcs = [rv['a'], rv['b']]
+                    elif rv['r'] in ('ref', 'discr'):
+                        srcs = [['c', rv['p']]]
+                    if any(o and o[0] != 'k' and o[1][0] == l for o in srcs):
+                        if rv['r'] == 'discr':
+                            fates.add('switch')
+                        elif is_local(s['lhs']):
+                            work.append(s['lhs'][0])
+                        else:
+                            fates.add('stored')
+    return fates or {'discarded'}
+
+
 def result_fate(fn, bi):
     """how the Result returned by the call in block bi is consumed: set of callee paths / 'switch' / 'discarded' / 'returned'"""
     t = fn.blocks[bi]['t']
@@ -142,7 +191,17 @@ def result_fate(fn, bi):
                 fates.add('switch')
             if kind == 'arg':
                 tt = blk['t']
-                fates.add(tt['callee'].get('path') or 'indirect')
+                cp = tt['callee'].get('path') or 'indirect'
+                if cp in CONVERT and is_local(tt['dest']):
+                    # `.is_ok()` / `.ok()` / `.err()`: the information lives on in the converted value; it is swallowed only
+                    # if that value is looked at by nobody
+                    sub = value_fate(fn, tt['dest'][0])
+                    if sub == {'discarded'}:
+                        fates.add(cp)
+                    else:
+                        fates |= sub
+                else:
+                    fates.add(cp)
             if kind == 'rhs':
                 for s in blk['s']:
                     if s['k'] != 'assign':
